@@ -7,11 +7,13 @@ import asyncio
 from lib import rig, vt
 
 OPS = ("configure", "open", "start", "suspend", "close", "abort")
+BAD_SEID = 0x3D  # an endpoint identifier nobody has
 # Stream.tla Legal(op, state): a `raw` command is only a probe of the acceptor's refusal, so the driver
 # issues it only where the procedure is illegal (a tour may have planned it for another state: the
 # specification leaves start-in-CONFIGURED free, the implementation takes one of the two branches)
 LEGAL = {"configure": {"IDLE"}, "open": {"CONFIGURED"}, "start": {"OPEN"}, "suspend": {"STREAMING"},
-         "close": {"OPEN", "STREAMING"}, "abort": {"CONFIGURED", "OPEN", "STREAMING", "CLOSING", "ABORTING"}}
+         "close": {"OPEN", "STREAMING"}, "abort": {"CONFIGURED", "OPEN", "STREAMING", "CLOSING", "ABORTING"},
+         "start_list": set(), "suspend_list": set()}
 
 
 def _codec(a2dp, avdtp, sink):
@@ -119,6 +121,10 @@ class Pair:
             await p.close(seid)
         elif op == "abort":
             await p.abort(seid)
+        elif op == "start_list":
+            await p.start([seid, BAD_SEID])
+        elif op == "suspend_list":
+            await p.suspend([seid, BAD_SEID])
 
     async def do(self, op, via):
         from bumble import core
